@@ -19,6 +19,12 @@ PRES = [pres(1800, 4.0, 8.0), pres(3600, 8.0, 2.0, gap=2, gap_rain=0, zone="Afri
         pres(900, 0.5, 16.0, gap_rain=4, e0=1700000100 - 1700000100 % 900)]
 
 
+# a threshold of exactly zero is a legitimate setting ("every wet step belongs to a storm", "every increase is a
+# rise"); the lattice thresholds S / J are 0 as well, so Classify.tla is evaluated with the same zero
+PRES_ZERO = [pres(1800, 0.0, 8.0, S=0), pres(3600, 8.0, 0.0, J=0, gap=2, gap_rain=0),
+             pres(900, 0.0, 0.0, S=0, J=0, gap_rain=4, e0=1700000100 - 1700000100 % 900)]
+
+
 PRES_20MIN = [pres(1200, 4.0, 3.0, e0=1700000400), pres(1200, 4.0, 3.0, e0=531274800, zone="Etc/GMT+5")]
 
 
@@ -70,6 +76,7 @@ def c01(chk, tier):
                       INV_ALL, ["Termination"], PRES[:2] if q else PRES, CC.KEYS["C01"],
                       cli_every=10 if q else 5, nontrivial=nt_pairs)
     CC.code_to_spec(chk, 300 if q else 3000, PRES, prefixes=("C01",))
+    CC.code_to_spec(chk, 90 if q else 900, PRES_ZERO, prefixes=("C01",))
     FF.field_sweep(chk, tier, prefixes=("C01",))
     # every input triple that Load.tla accepts (different steps, offsets, gaps) must classify: totality
     from . import load_checks as LC
@@ -103,6 +110,7 @@ def c02(chk, tier):
                       ["StableAtEnd", "OptimalAtEnd", "Progress"], [], PRES[:1] if q else PRES[:2],
                       CC.KEYS["C02"], nontrivial=nt_pairs)
     CC.code_to_spec(chk, 300 if q else 3000, PRES, prefixes=("C02",), max_len=48)
+    CC.code_to_spec(chk, 90 if q else 900, PRES_ZERO, prefixes=("C02",), max_len=48)
     FF.field_sweep(chk, tier, prefixes=("C02",))
 
 
@@ -128,6 +136,7 @@ def c03(chk, tier):
                        "IncVals": "<- IncFallAtFast", "S": str(FINE), "J": str(FINE), "Emit": "TRUE"},
                       ["AlgorithmsEqualDefinitions", "KeysUnique"], [], PRES_FINE, CC.KEYS["C03"], nontrivial=nt_pairs)
     CC.code_to_spec(chk, 300 if q else 3000, PRES, prefixes=("C03",))
+    CC.code_to_spec(chk, 90 if q else 900, PRES_ZERO, prefixes=("C03",))
     FF.field_sweep(chk, tier, prefixes=("C03",))
 
 
@@ -169,6 +178,7 @@ def c04(chk, tier):
     if r.get("violated"):
         chk.violation("OnlineFlags.tla: the online machine differs from the streaming definition: " + r["error"][:400], {"kind": "tlc"})
     CC.code_to_spec(chk, 300 if q else 3000, PRES, prefixes=("C04",))
+    CC.code_to_spec(chk, 90 if q else 900, PRES_ZERO, prefixes=("C04",))
     FF.field_sweep(chk, tier, prefixes=("C04",))
 
 
